@@ -1188,3 +1188,38 @@ func impliedOfValue(v ssa.Value, truth bool, depth int) []Cond {
 	}
 	return out
 }
+
+// contradicts returns a cutEdge function for walks that start in block `at`: an If edge is infeasible when its condition
+// is the negation of a condition every path to `at` has already established on the very same SSA value (values are
+// immutable, so `if !inUse {insert}; if inUse {return}` cannot take both then-branches).
+func contradicts(at *ssa.BasicBlock) func(from *ssa.BasicBlock, k int) bool {
+	type key struct {
+		op   token.Token
+		x, y ssa.Value
+		val  ssa.Value
+	}
+	known := map[key]bool{} // → truth
+	for _, me := range mustEdges(at) {
+		for _, c := range impliedConds(ifOf(me.from), me.succ == 0) {
+			if c.Op == token.ILLEGAL {
+				known[key{val: c.Val}] = c.True
+			} else {
+				known[key{op: c.Op, x: c.X, y: c.Y}] = true
+				known[key{op: negOp(c.Op), x: c.X, y: c.Y}] = false
+			}
+		}
+	}
+	return func(from *ssa.BasicBlock, k int) bool {
+		ifi := ifOf(from)
+		if ifi == nil {
+			return false
+		}
+		c := condOn(ifi, k == 0)
+		if c.Op == token.ILLEGAL {
+			t, ok := known[key{val: c.Val}]
+			return ok && t != c.True
+		}
+		t, ok := known[key{op: c.Op, x: c.X, y: c.Y}]
+		return ok && !t
+	}
+}
